@@ -833,7 +833,7 @@ func checkCallback(c *checkCtx) {
 		c.sample("race pass")
 		return
 	}
-	n := c.pick(200, 10000)
+	n := c.pick(150, 7500)
 	var hits [vpPointCount]uint64
 	samples := 0
 	ownViolations := 0
